@@ -194,7 +194,7 @@ def needs_modules(atoms):
 
 def render(atoms, variant='p'):
     """-> {'files': {relpath: text}, 'layout': 'file'|'mods'}.  variant 'p' (pure: only nodes
-    without outgoing atoms get the base definition `class n_i: a = 1`) or 'b' (every node
+    without outgoing atoms get the base definition `class n_i: class a: pass`) or 'b' (every node
     additionally has the base definition)."""
     n = 1 + max(max(i, j) for i, j, _ in atoms)
     modular = needs_modules(atoms)
@@ -235,7 +235,10 @@ SCALING = ['assign_chain', 'call_chain', 'inherit_chain', 'diamonds', 'call_tree
 
 def scaling(family, n):
     """-> {'files': {...}}; main.py ends with the probe lines `r.x` / `r.x.` where r is the
-    name at the end of the chain and x the payload attribute of class K."""
+    name at the end of the chain and x the payload attribute of class K.
+    `chain_<kind>` / `ring_<kind>` reuse the graph renderer: n arcs of one edge kind in a row
+    (node n carries the base definition) resp. one directed cycle through n nodes; their probe
+    lines are `r = n0()`, `r.a`, `r.a.`."""
     files = {}
     if family.startswith(('ring_', 'chain_')):
         if family.startswith('ring_'):
